@@ -11,12 +11,12 @@ grammar — about `NumText.literal`, C13's own model of `_R_EXPR_NUMBER.match` +
 model of C01/C02/C06/C10 (`ExprParse.parseExpr`) scans numbers with a different hand-written function,
 `ExprScan.scanNumber`.  This module connects them, up to the script level:
 
-1. **one scanner** — `scanNumber_eq_literal`: on every string whose `\d` characters are ASCII digits (decidable
-   `AsciiDigitsOnly`) the two agree: both fail, or same value and same consumed length.  The white-space classes are the
-   same set (`isPySpace_eq`), the values are the same rational (`val_bridge`).  Outside the domain they DIFFER
-   (`scanners_differ_on_unicode_digit`): CPython's `\d` and `float()` accept every Unicode decimal digit, `NumText` models
-   that, `ExprScan` is ASCII-only (its documented assumption) — the real `parse_expression('\u0663')` is `{'number': 3.0}`, so
-   `NumText` is the faithful one.  `.floatRaises` needs a non-ASCII digit (`literal_floatRaises_nonascii`).
+1. **one scanner** — `scanNumber_eq_literal`: on EVERY string the two agree: both fail, or same value and same consumed
+   length.  The white-space classes are the same set (`isPySpace_eq`), the digit classes are the same set with the same
+   digit values (`isDigit_eq_isDig`, `digitVal_eq_digVal`: CPython's `\d` and `float()` accept every Unicode decimal digit —
+   the real `parse_expression('\u0663')` is `{'number': 3.0}` — and both models have it, from two independently frozen
+   tables), the values are the same rational (`val_bridge`); `float()` never raises on what the pattern matched
+   (`literal_never_floatRaises`, no ASCII hypothesis; `scanners_agree_on_unicode_digit` are the former counterexamples).
 2. **the parser** — `parseExpr_valueString`: the text of every number whose text does not start with `-` parses, as a WHOLE
    expression, to the number leaf with the denoted rational; `parseExpr_valueString_neg`: a text starting with `-` parses
    to the unary-minus NODE over the leaf of the absolute text (`_R_EXPR_UNARY_OP` is tried before `_R_EXPR_NUMBER`; the
@@ -38,79 +38,46 @@ open NumText C13
 
 /-! ## 1. one scanner -/
 
-/-- every character of `s` that regex `\d` / `float()` accept as a decimal digit is an ASCII digit (decidable) -/
-def AsciiDigitsOnly (s : String) : Prop := s.toList.all (fun c => !isDig c || isAsciiDigit c) = true
-
-instance (s : String) : Decidable (AsciiDigitsOnly s) := inferInstanceAs (Decidable (_ = true))
-
-theorem asciiDigitsOnly_iff (s : String) : AsciiDigitsOnly s ↔ DigitsAscii s.toList := by
-  simp only [AsciiDigitsOnly, DigitsAscii, List.all_eq_true, Bool.or_eq_true, Bool.not_eq_true']
-  constructor
-  · intro h c hc hd
-    rcases h c hc with h1 | h1
-    · rw [hd] at h1; cases h1
-    · exact h1
-  · intro h c hc
-    cases hd : isDig c with
-    | false => exact Or.inl rfl
-    | true => exact Or.inr (h c hc hd)
-
 /-- the answer of the parser model's scanner `ExprScan.scanNumber` in the vocabulary of `NumText.LitRes` -/
 def scanRes (s : String) : LitRes :=
   match ExprScan.scanNumber s.toList with
   | none => .noMatch
   | some (q, rest) => .number (s.length - rest.length) q
 
-theorem tokAscii_of_digitsAscii {strict : Bool} {t : Tok} {l : List Char} (hw : TokWF strict t) (h : DigitsAscii l)
-    (hsub : ∀ c ∈ t.text, c ∈ l) : TokAscii t := by
-  obtain ⟨sign, ip, frac, exp⟩ := t
-  refine ⟨?_, ?_, ?_⟩
-  · intro c hc; exact h c (hsub c (by simp [Tok.text, hc])) (hw.ip c hc)
-  · intro fp hfp c hc
-    simp only at hfp; subst hfp
-    exact h c (hsub c (by simp [Tok.text, fracText, hc])) (hw.fp fp rfl c hc)
-  · intro e he c hc
-    simp only at he; subst he
-    exact h c (hsub c (by simp [Tok.text, expText, ExpPart.text, hc])) ((hw.exp e rfl).digs c hc)
-
-theorem literal_of_scanTok {s : String} {t : Tok} {rest : List Char} (h : DigitsAscii s.toList)
+theorem literal_of_scanTok {s : String} {t : Tok} {rest : List Char}
     (hsc : scanTok true (s.toList.dropWhile isReSpace) = some (t, rest)) : literal s = .number (s.length - rest.length) t.val := by
   obtain ⟨hl, hw⟩ := scanTok_sound hsc
-  have hasc : TokAscii t := tokAscii_of_digitsAscii hw (h.dropWhile isReSpace) (by intro c hc; rw [hl]; simp [hc])
   unfold literal
-  simp only [hsc, floatText_text hw (tokWF_weaken hw) hasc]
+  simp only [hsc, floatText_text_uni hw (tokWF_weaken hw)]
 
-/-- **`scanNumber_eq_literal`** — for every string whose `\d` characters are ASCII digits, C13's literal model
-(`_R_EXPR_NUMBER.match` + `float(group 1)` + `len(group 0)`) and the number scanner of the expression parser model agree:
-both fail, or equal value and equal consumed length.  (In particular `float()` never raises there.) -/
-theorem scanNumber_eq_literal (s : String) (h : AsciiDigitsOnly s) : literal s = scanRes s := by
-  have hd := (asciiDigitsOnly_iff s).mp h
+/-- **`scanNumber_eq_literal`** — for EVERY string, C13's literal model (`_R_EXPR_NUMBER.match` + `float(group 1)` +
+`len(group 0)`) and the number scanner of the expression parser model agree: both fail, or equal value and equal consumed
+length.  (In particular `float()` never raises.)  No hypothesis: Unicode decimal digits included. -/
+theorem scanNumber_eq_literal (s : String) : literal s = scanRes s := by
   unfold scanRes
-  rw [scanNumber_eq_numCore, numCore_eq_scanTok (hd.dropWhile isReSpace)]
+  rw [scanNumber_eq_numCore, numCore_eq_scanTok]
   cases hsc : scanTok true (s.toList.dropWhile isReSpace) with
   | none => simp [literal, hsc]
   | some p =>
     obtain ⟨t, rest⟩ := p
-    simp [literal_of_scanTok hd hsc]
+    simp [literal_of_scanTok hsc]
 
-
-example : AsciiDigitsOnly "  12.5e+3 rest" ∧ AsciiDigitsOnly "x é 1e5" ∧ ¬ AsciiDigitsOnly "1٣" := by decide
 example : literal "  12.5e+3 rest" = .number 9 12500 ∧ scanRes "  12.5e+3 rest" = .number 9 12500 := by decide +kernel
-example : literal "1e5" = scanRes "1e5" := scanNumber_eq_literal "1e5" (by decide)
+example : literal "1e5" = scanRes "1e5" := scanNumber_eq_literal "1e5"
 
-/-- **outside the domain the two models differ** (a finding about the MODELS; the real `re`/`float` side with `NumText`:
-`parse_expression('٣')` is `{'number': 3.0}`, `parse_expression('1٣')` is `{'number': 13.0}`): a non-ASCII decimal
-digit is a digit for `NumText.literal` and not for `ExprScan.scanNumber`. -/
-theorem scanners_differ_on_unicode_digit :
-    ExprScan.scanNumber "٣".toList = none ∧ literal "٣" = .number 1 3 ∧
-    scanRes "1٣" = .number 1 1 ∧ literal "1٣" = .number 2 13 := by decide +kernel
+/-- the former counterexamples (the ASCII-only `ExprScan` stopped at a non-ASCII decimal digit): the real `re`/`float` give
+`parse_expression('٣') == {'number': 3.0}`, `parse_expression('1٣') == {'number': 13.0}`,
+`parse_expression('١٢.٥e+٣') == {'number': 12500.0}`, and so do both models -/
+theorem scanners_agree_on_unicode_digit :
+    ExprScan.scanNumber "٣".toList = some (3, []) ∧ literal "٣" = .number 1 3 ∧
+    scanRes "1٣" = .number 2 13 ∧ literal "1٣" = .number 2 13 ∧
+    scanRes "١٢.٥e+٣" = .number 7 12500 ∧ literal "١٢.٥e+٣" = .number 7 12500 := by decide +kernel
 
-/-- `NumText.literal` answers `.floatRaises` only on a text containing a non-ASCII decimal digit (there CPython's `float()`
-accepts what `\d` matched as well — `float('1٣') == 13.0` — so the answer is unreachable in the implementation; in the
-model it is excluded for such texts by correspondence only, as C13 says). -/
-theorem literal_floatRaises_nonascii (s : String) (h : literal s = .floatRaises) : ¬ AsciiDigitsOnly s := by
-  intro ha
-  rw [scanNumber_eq_literal s ha] at h
+/-- `NumText.literal` never answers `.floatRaises`: CPython's `float()` accepts whatever `_R_EXPR_NUMBER` matched, Unicode
+decimal digits included (`float('1٣') == 13.0`).  Strengthens `C13.literal_never_raises` (which assumes an ASCII text). -/
+theorem literal_never_floatRaises (s : String) : literal s ≠ .floatRaises := by
+  intro h
+  rw [scanNumber_eq_literal s] at h
   unfold scanRes at h
   split at h <;> cases h
 
@@ -138,12 +105,9 @@ theorem head_facts {c : Char} (h : c = '+' ∨ c = '-' ∨ isDigit c = true) : c
   rcases h with h | h | h
   · subst h; decide
   · subst h; decide
-  · simp only [isDigit, Bool.and_eq_true, decide_eq_true_eq] at h
-    constructor
-    · intro e; subst e; simp at h
-    · simp only [isIdStart, Bool.or_eq_false_iff, Bool.and_eq_false_iff, decide_eq_false_iff_not, beq_eq_false_iff_ne]
-      refine ⟨⟨by omega, by omega⟩, ?_⟩
-      intro e; subst e; simp at h
+  · constructor
+    · intro e; subst e; revert h; decide
+    · exact C02.digit_not_idStart h
 
 theorem parseUnary_number {cs rest : List Char} {q : Rat} (h : scanNumber cs = some (q, rest)) (hu : scanUnaryOp cs = none)
     (fuel : Nat) : parseUnary fuel cs = .ok (.number q, rest) := by
@@ -185,20 +149,12 @@ theorem numChar_not_reSpace {c : Char} (h : numChar c = true) : isReSpace c = fa
   · exact reSpace_ascii h
   all_goals (subst h; decide)
 
-theorem numChar_digitsAscii {l : List Char} (h : ∀ c ∈ l, numChar c = true) : DigitsAscii l := by
-  intro c hc hd
-  have := h c hc
-  simp only [numChar, Bool.or_eq_true, beq_iff_eq] at this
-  rcases this with ((((h | h) | h) | h) | h) | h
-  · exact h
-  all_goals (subst h; revert hd; decide)
-
 /-- the literal scanner of the parser model on the text of a literal of the source grammar with ASCII digits -/
 theorem scanNumber_text {t : Tok} (hw : TokWF true t) (ha : TokAscii t) (rest : List Char) :
     scanNumber t.text = some (t.val, []) := by
   have hn := numChars_text ha
   rw [scanNumber_eq_numCore, dropWhile_none (fun c hc => numChar_not_reSpace (hn c hc)),
-    numCore_eq_scanTok (numChar_digitsAscii hn), scanTok_text hw]
+    numCore_eq_scanTok, scanTok_text hw]
   rfl
 
 /-- the positive twin of a literal -/
